@@ -26,7 +26,7 @@ ID = "C17"
 LEVEL = "model_checking"
 ENGINE = "E2 parse-history enumeration in forked pristine images + E4 preemption-bounded thread schedules"
 RULE = (
-    "E2: every sequence of <= D parses over a 26-text corpus, each sequence in a process forked from a pristine parent, every "
+    "E2: every sequence of <= D parses over a 32-text corpus, each sequence in a process forked from a pristine parent, every "
     "parse compared with the fresh-interpreter baseline of its text. E4: ordered pairs of corpus texts x {pristine, warm process image} "
     "x both start orders x EVERY switch point (preemption bound 1; thorough adds opcode granularity and bound 2 at call "
     "granularity); distinct = distinct history or distinct (pair, configuration, schedule); non-trivial = history of >= 2 parses "
@@ -86,6 +86,11 @@ CORPUS = {
     "fail-no-events-section": (mk(res=12, sync=SYNC, events=EV, tracks={"ExpertSingle": T_S}).replace("[Events]", "[Eventz]"), None),
     # fails inside the note loop of its SECOND track after two notes were built (unsorted over a tempo change)
     "fail-mid-track": (mk(res=100, sync=SYNC, events=EV, tracks=[("ExpertSingle", T_A), ("HardSingle", ["0 = N 0 0", "8 = N 1 0", "4 = N 2 0"])]), None),
+    # three phrases; in sp-skip the middle one covers no note, in sp-all every one covers notes, in sp-late only the
+    # last does: per-index pools / tables filled "in order of first use" are filled differently by each
+    "sp-skip": (mk(res=12, sync=SYNC, events=EV, tracks={"ExpertSingle": ["0 = S 2 3", "8 = S 2 3", "16 = S 2 3", "0 = N 0 0", "1 = N 1 0", "5 = N 2 0", "16 = N 0 0", "17 = N 1 0"]}), None),
+    "sp-all": (mk(res=12, sync=SYNC, events=EV, tracks={"ExpertSingle": ["0 = S 2 3", "8 = S 2 3", "16 = S 2 3", "0 = N 0 0", "1 = N 1 0", "8 = N 2 0", "9 = N 3 0", "16 = N 0 0", "17 = N 1 0"]}), None),
+    "sp-late": (mk(res=12, sync=SYNC, events=EV, tracks=[("ExpertSingle", ["0 = S 2 3", "8 = S 2 3", "16 = S 2 3", "5 = N 0 0", "17 = N 1 0"]), ("HardSingle", ["0 = S 2 0", "0 = S 2 2", "1 = N 1 0"])]), None),
 }
 NAMES = list(CORPUS)
 BASELINE = {}
